@@ -43,6 +43,7 @@ type Analysis struct {
 	NPackages  int
 	NFunctions int // in-repo functions with bodies
 	NEdges     int
+	Renamed    int // values rendered under a recorded name (identifier-independent rendering)
 	Unresolved []string // anchors that failed to resolve: any entry => exit 2
 }
 
@@ -211,6 +212,7 @@ func Load(repoDir string, goarch string) (*Analysis, error) {
 			a.fnIndex[FnName(f)] = append(a.fnIndex[FnName(f)], f)
 		}
 	}
+	a.Renamed = applyNames(a)
 	a.CHA = cha.CallGraph(prog)
 	a.CG = vta.CallGraph(all, a.CHA)
 	a.buildScoped()
